@@ -19,13 +19,13 @@ if [ "$CONFIRM" = "--confirm" ] && [ -n "$DEMO" ] && [ -n "$DEMODIR" ]; then
   (cd "$WT" && go test -vet=off -count=1 -run 'Demo' ./$DEMODIR/ >/tmp/evalmut-$$.log 2>&1); R0=$?
   echo "demo without patch: exit $R0"
 fi
-(cd "$WT" && git apply "$D/patch.diff") || { echo "patch does not apply"; exit 3; }
+(cd "$WT" && (git apply "$D/patch.diff" || git apply -3 "$D/patch.diff")) || { echo "patch does not apply"; exit 3; }
 if [ "$CONFIRM" = "--confirm" ]; then
   if [ -n "$DEMO" ] && [ -n "$DEMODIR" ]; then
     (cd "$WT" && go test -vet=off -count=1 -run 'Demo' ./$DEMODIR/ >/tmp/evalmut-$$.log 2>&1); R1=$?
     echo "demo with patch: exit $R1"; tail -5 /tmp/evalmut-$$.log; rm -f "$WT/$DEMODIR/zz_demo_test.go"
   fi
-  (cd "$WT" && go test -vet=off -count=1 ./... 2>&1 | grep -v "no test files\|^ok\|pam" | head -20); echo "suite done (only non-ok lines shown above)"
+  if [ "${4:-}" = "--suite" ]; then (cd "$WT" && go test -vet=off -count=1 ./... 2>&1 | grep -v "no test files\|^ok\|pam" | head -20); echo "suite done (only non-ok lines shown above)"; fi
   rm -f /tmp/evalmut-$$.log
 fi
 cd /verif && VERIF_REPLAYS_DIR=/tmp/evalmut-replays VERIF_REPO="$WT" ./check "$PROP" "$TIER" > /tmp/evalmut-$NAME.out 2>&1; RC=$?
